@@ -20,6 +20,7 @@ def gen_history(seed, max_edits=8, features=None, inproc_only=False, deps_ops=Tr
     rng = core.stream(seed, "gen")
     F = dict(features or {})
     # swarm: switch program features on/off per run
+    F.setdefault("p_two_packages", 0.3)
     for k, p in (("p_hidden", 0.5), ("p_alias", 0.5), ("p_recur", 0.5), ("p_explicit", 0.6), ("p_setc", 0.7),
                  ("p_posdef", 0.8), ("p_kwdef", 0.7), ("p_salt", 0.4)):
         if k not in F and rng.random() > p:
@@ -87,7 +88,7 @@ def passthrough(*a, **k):
 
 
 def modname(prog, mi):
-    return "%s.%s" % (progen.PKG, prog["modules"][mi])
+    return "%s.%s" % (progen.pkg_of(prog, mi), prog["modules"][mi])
 
 
 def import_program(prog, root):
@@ -298,6 +299,7 @@ def execute_history(case, want):
             if li > 0:
                 bump("restarts")
             shutil.rmtree(root + "/src/" + progen.PKG, ignore_errors=True)
+            shutil.rmtree(root + "/src/" + progen.PKG + "q", ignore_errors=True)
             progen.write_package(cur, root + "/src")
             if not any(st["op"] in ("call", "deps") for _, st in life):
                 for _, st in life:
